@@ -14,8 +14,11 @@ CONSTANTS
   Pres <- Q_Pres
   PreSpecSrcs <- Q_PreSpecSrcs
   AliasAttrs = FALSE
+  HistStride = 11
+  ReadCache = FALSE
 CONSTRAINT Export
 INVARIANT ImplClipRefinesReq
+INVARIANT ImplRecIsFile
 INVARIANT ImplProduces
 INVARIANT ImplTimeAxis
 INVARIANT ImplFreqAxis
